@@ -204,6 +204,20 @@ func propC18(t *rapid.T) {
 		if qf.Err != nil {
 			t.Fatalf("build: %v\n%s", qf.Err, desc())
 		}
+		// the same rows in another order (a sorted frame: complete, but not in storage order)
+		if rapid.IntRange(0, 2).Draw(t, "sortedfirst") == 0 && n > 1 {
+			qf = qf.Sort(qframe.Order{Column: "id", Reverse: true})
+			rev := make([]int, n)
+			for i := range rev {
+				rev[i] = n - 1 - i
+			}
+			tab = tab.Rows(rev)
+			rc := make([]*string, n)
+			for i := range rc {
+				rc[i] = cells[n-1-i]
+			}
+			cells = rc
+		}
 		match, merr := hx.LikeModel(pattern, comp == "ilike")
 		var results [2]qframe.QFrame
 		// the pattern filter alone, or as one of several sub-clauses (the matchers then work on a selection that other
@@ -243,13 +257,14 @@ func propC18(t *rapid.T) {
 			if inverse {
 				m = !m
 			}
+			id := tab.MustCol("id").I[r]
 			switch wrap {
 			case "or(other,like)", "or(like,other)":
-				m = m || r < half
+				m = m || id < half
 			case "and(other,like)":
-				m = m && r < half
+				m = m && id < half
 			case "or(other,other2,like)":
-				m = m || r < half || r == n-1
+				m = m || id < half || id == n-1
 			}
 			if m {
 				keep = append(keep, r)
